@@ -392,6 +392,13 @@ func (r *SqlManager) AddVerificationMethod(ctx context.Context, subject string, 
 	verificationMethods := make([]did.VerificationMethod, 0)
 	var vmIDs []string
 	err := r.applyToDIDDocuments(ctx, subject, func(tx *gorm.DB, id did.DID, current *orm.DidDocument) (*orm.DidDocument, error) {
+		// a deactivated subject stays deactivated: a new key would make its DID documents resolve again.
+		// (Deactivate always writes a later version; the first version is the one Create stored.)
+		if current.Version > 0 {
+			if currentDocument, err := current.ToDIDDocument(); err == nil && resolver.IsDeactivated(currentDocument) {
+				return nil, resolver.ErrDeactivated
+			}
+		}
 		// known limitation
 		if keyUsage.Is(orm.KeyAgreementUsage) && id.Method == "web" {
 			return nil, ErrKeyAgreementNotSupported
